@@ -881,7 +881,13 @@ class PureScheduler:                                    # pylint: disable=r0902
         await self._feedback(None, "scheduler is shutting down...")
 
         # the done part is of no use here
-        _, pending = await asyncio.wait(tasks, timeout=timeout)
+        try:
+            _, pending = await asyncio.wait(tasks, timeout=timeout)
+        except asyncio.CancelledError:
+            # the enclosing scheduler has lost patience:
+            # do not leave our own co_shutdown() tasks behind
+            await self._tidy_tasks([t for t in tasks if not t.done()])
+            raise
         # everything went fine
         # NOTE however: here we say that sub-schedulers that expired in timeout
         # should not impact the overall result; this is an arguable choice
@@ -988,10 +994,18 @@ class PureScheduler:                                    # pylint: disable=r0902
                    for job in entry_jobs]
 
         while True:
-            done, pending \
-                = await asyncio.wait(pending,
-                                     timeout=self._remaining_timeout(),
-                                     return_when=asyncio.FIRST_COMPLETED)
+            try:
+                done, pending \
+                    = await asyncio.wait(pending,
+                                         timeout=self._remaining_timeout(),
+                                         return_when=asyncio.FIRST_COMPLETED)
+            except asyncio.CancelledError:
+                # we are being cancelled ourselves - typically a nested
+                # scheduler whose enclosing scheduler aborts or times out;
+                # pass it on to our own jobs before giving up
+                await self._tidy_tasks(pending)
+                await self.co_shutdown()
+                raise
 
             done_ok = {t for t in done if not t._exception}
             await self._feedback(done_ok, "DONE")
